@@ -125,3 +125,96 @@ func modelSortedPlain(model map[string]uint32) []ref.DictEntry {
 }
 
 func TestAug(t *testing.T) { core.Run(t, augCheck) }
+
+// c05/inline: a plain (Hashmap n X) stored inline shares its root cell with the fields around it: the root's
+// label and, at a fork, its two branches lie in the enclosing cell between other bits and references.
+type inlineHolder struct {
+	Before tlb.Uint8
+	P      tlb.Ref[tlb.Uint32]
+	D      tlb.Hashmap[tlb.Uint16, tlb.Uint32]
+	R      tlb.Ref[tlb.Uint32]
+}
+
+type inlineHolderTail struct {
+	D     tlb.Hashmap[tlb.Uint16, tlb.Uint32]
+	R     tlb.Ref[tlb.Uint32]
+	After tlb.Uint8
+}
+
+var inlineCheck = &core.Check{Name: "c05/inline", Quick: 1000, Thorough: 80000, Fn: func(c *core.Ctx) error {
+	keys := drawKeys(c, 16, 24, nil)
+	if len(keys) == 0 {
+		keys = []ref.Bits{make(ref.Bits, 16)}
+	}
+	model := map[string]uint32{}
+	var entries []ref.DictEntry
+	for _, k := range keys {
+		v := uint32(c.U64("val"))
+		model[k.String()] = v
+		entries = append(entries, ref.DictEntry{Key: k, Value: ref.DictValue{Bits: ref.Bits{}.AppendUint(uint64(v), 32)}})
+	}
+	var choose func(ref.Bits, int, []int) int
+	if c.Bool("forms") {
+		choose = func(s ref.Bits, m int, forms []int) int { return forms[c.Choose("form", len(forms))] }
+	}
+	root, err := ref.EncodeHashmap(entries, 16, choose)
+	if err != nil {
+		return fmt.Errorf("HARNESS: %v", err)
+	}
+	before, after, p, r := uint8(c.U64("before")), uint8(c.U64("after")), uint32(c.U64("p")), uint32(c.U64("r"))
+	leaf := func(v uint32) *ref.RCell { return ref.NewRCell(ref.Bits{}.AppendUint(uint64(v), 32), false) }
+	withHead := c.Bool("head")
+	var outer *ref.RCell
+	if withHead {
+		bits := append(ref.Bits{}.AppendUint(uint64(before), 8), root.Bits()...)
+		outer = ref.NewRCell(bits, false, append(append([]*ref.RCell{leaf(p)}, root.Refs...), leaf(r))...)
+	} else {
+		bits := append(root.Bits().Clone(), ref.Bits{}.AppendUint(uint64(after), 8)...)
+		outer = ref.NewRCell(bits, false, append(append([]*ref.RCell{}, root.Refs...), leaf(r))...)
+	}
+	if outer.BitLen > 1023 || len(outer.Refs) > 4 {
+		c.Class("does not fit")
+		return nil
+	}
+	if len(keys) >= 2 {
+		c.NonTrivial(outer.ReprHash())
+		c.Class("root fork shares its cell with other references")
+	}
+	cells, err := boc.DeserializeBoc(ref.SerializeBOC([]*ref.RCell{outer}, ref.BocVariant{}))
+	if err != nil {
+		return fmt.Errorf("HARNESS: %v", err)
+	}
+	var gotKeys []tlb.Uint16
+	var gotVals []tlb.Uint32
+	if withHead {
+		var h inlineHolder
+		if err := tlb.Unmarshal(cells[0], &h); err != nil {
+			return fmt.Errorf("a cell holding uint8, ^uint32, an inline Hashmap 16 with %d entries and ^uint32 does not decode: %v\ncell %s", len(keys), err, outer.Bits().FiftHex())
+		}
+		if uint8(h.Before) != before || uint32(h.P.Value) != p || uint32(h.R.Value) != r {
+			return fmt.Errorf("fields around an inline Hashmap decode as %d, ^%d, ^%d; the cell holds %d, ^%d, ^%d", h.Before, h.P.Value, h.R.Value, before, p, r)
+		}
+		gotKeys, gotVals = h.D.Keys(), h.D.Values()
+	} else {
+		var h inlineHolderTail
+		if err := tlb.Unmarshal(cells[0], &h); err != nil {
+			return fmt.Errorf("a cell holding an inline Hashmap 16 with %d entries, ^uint32 and uint8 does not decode: %v\ncell %s", len(keys), err, outer.Bits().FiftHex())
+		}
+		if uint8(h.After) != after || uint32(h.R.Value) != r {
+			return fmt.Errorf("fields after an inline Hashmap decode as ^%d, %d; the cell holds ^%d, %d", h.R.Value, h.After, r, after)
+		}
+		gotKeys, gotVals = h.D.Keys(), h.D.Values()
+	}
+	want := modelSortedPlain(model)
+	if len(gotKeys) != len(want) {
+		return fmt.Errorf("inline Hashmap decodes to %d entries, it holds %d", len(gotKeys), len(want))
+	}
+	for i := range want {
+		if uint64(gotKeys[i]) != want[i].Key.Uint(0, 16) || uint64(gotVals[i]) != want[i].Value.Bits.Uint(0, 32) {
+			return fmt.Errorf("inline Hashmap entry %d decodes as %d -> %d, it holds %d -> %d", i, gotKeys[i], gotVals[i], want[i].Key.Uint(0, 16), want[i].Value.Bits.Uint(0, 32))
+		}
+	}
+	return nil
+}}
+
+func TestInline(t *testing.T) { core.Run(t, inlineCheck) }
